@@ -321,3 +321,64 @@ func ZZ_C13_H3() {
 	zz.Assert("operation-beyond-end-of-input-reports-an-error", errOK)
 	zz.Assert("nothing-lost-after-a-failed-peek", restOK)
 }
+
+// ZZ_C13_BIG: the > 512 KiB regime. A Peek larger than the pooled-block limit gets a node of its
+// own; after everything buffered has been consumed and released, the connection must keep
+// working: the next bytes observed are the next wire bytes.
+func ZZ_C13_BIG() {
+	const big = 512*1024 + 1
+	extra := zz.Range("extra", 0, 2)
+	total := big + extra + 200
+	wire := make([]byte, total)
+	for i := range wire {
+		wire[i] = byte(i*7 + i/251)
+	}
+	sym := zz.Bytes("boundarybytes", 3)
+	wire[0], wire[big-1], wire[big+extra] = sym[0], sym[1], sym[2]
+	nc := zz.NewNetConn(wire)
+	first := []int{0, 4096, 100}[zz.Choose("firstFragment", 3)]
+	nc.Frag = func(rem int) int {
+		pos := total - rem
+		if pos == 0 && first > 0 {
+			return first
+		}
+		if pos < big+extra {
+			return big + extra - pos // the rest of the large block in one read
+		}
+		return rem
+	}
+	c := newConn(nc, defaultMallocSize).(*Conn)
+	ok := true
+	if zz.Choose("readByteFirst", 2) == 1 {
+		b, err := c.ReadByte()
+		if err != nil || b != wire[0] {
+			ok = false
+		}
+		p, err := c.Peek(big + extra - 1)
+		if err != nil || len(p) != big+extra-1 || p[0] != wire[1] || p[len(p)-1] != wire[big+extra-1] {
+			ok = false
+		}
+		if c.Skip(big+extra-1) != nil {
+			ok = false
+		}
+	} else {
+		p, err := c.Peek(big + extra)
+		if err != nil || len(p) != big+extra || p[0] != wire[0] || p[big-1] != wire[big-1] {
+			ok = false
+		}
+		if c.Skip(big+extra) != nil {
+			ok = false
+		}
+	}
+	lenOK := c.Len() == nc.Pos-(big+extra)
+	if c.Release() != nil {
+		ok = false
+	}
+	fin, err := c.Peek(64)
+	if err != nil || !bytes.Equal(fin, wire[big+extra:big+extra+64]) {
+		ok = false
+	}
+	zz.Cover("reached-assert", true)
+	zz.Assert("bytes-are-the-sent-bytes-in-order", ok)
+	zz.Assert("len-is-buffered-minus-consumed", lenOK)
+}
